@@ -63,6 +63,14 @@ logger = logging.getLogger(__name__)
 # -----------------------------------------------------------------------------
 GATT_SERVER_DEFAULT_MAX_MTU = 517
 
+# Permissions that make an attribute writeable by a peer at all
+_WRITE_PERMISSIONS = (
+    att.Attribute.WRITEABLE
+    | att.Attribute.WRITE_REQUIRES_ENCRYPTION
+    | att.Attribute.WRITE_REQUIRES_AUTHENTICATION
+    | att.Attribute.WRITE_REQUIRES_AUTHORIZATION
+)
+
 
 # -----------------------------------------------------------------------------
 # Helpers
@@ -685,6 +693,20 @@ class Server(utils.EventEmitter):
                     + str(att_pdu)
                 )
 
+    async def write_attribute_value(
+        self, bearer: att.Bearer, attribute: att.Attribute, value: bytes
+    ) -> None:
+        '''
+        Write an attribute on behalf of a peer: the attribute must be writeable, with
+        or without security requirements (which `Attribute.write_value` checks).
+        '''
+        if not attribute.permissions & _WRITE_PERMISSIONS:
+            raise att.ATT_Error(
+                error_code=att.ATT_WRITE_NOT_PERMITTED_ERROR,
+                att_handle=attribute.handle,
+            )
+        await attribute.write_value(bearer, value)
+
     #######################################################
     # ATT handlers
     #######################################################
@@ -1210,7 +1232,7 @@ class Server(utils.EventEmitter):
         response: att.ATT_PDU
         try:
             # Accept the value
-            await attribute.write_value(bearer, request.attribute_value)
+            await self.write_attribute_value(bearer, attribute, request.attribute_value)
         except att.ATT_Error as error:
             response = att.ATT_Error_Response(
                 request_opcode_in_error=request.op_code,
@@ -1243,7 +1265,7 @@ class Server(utils.EventEmitter):
 
         # Accept the value
         try:
-            await attribute.write_value(bearer, request.attribute_value)
+            await self.write_attribute_value(bearer, attribute, request.attribute_value)
         except Exception:
             logger.exception('!!! ignoring exception')
 
